@@ -7,6 +7,7 @@ the oracle; class-complete enumeration of 5-character names for the
 fix/unfix/cycle clauses against an own (A3,I2) formatter; icontract
 post-conditions on fix_/unfix_blockname active throughout.
 """
+import os
 import itertools
 from string import ascii_lowercase, ascii_uppercase
 
@@ -299,6 +300,22 @@ def run_rect(ctx, spec):
                 c['nx'] * c['ny'], (c['nx'] + 1) * (c['ny'] + 1), c['nz'] + 1, geo.num_columns, geo.num_nodes, geo.num_layers), c)
             continue
         check_geometry_names(ctx, geo, c)
+        if geo.num_blocks <= 1500 and c['justify'] == 'r':
+            # the same names must come back from a geometry file (the reader sets the name lengths of the file's
+            # convention before it builds names), and be well-formed there too; right-justified names only: the
+            # format documentation says left-justified ones are not safe in files (they come back right-justified)
+            fn = os.path.join(ctx.tmp, 'c17.dat')
+            with ctx.guard(c, where='file-round-trip') as g2:
+                geo.write(fn)
+                back = mg.mulgrid(fn)
+            if g2.raised is None:
+                ctx.count('geometries_reread_from_file')
+                if list(back.block_name_list) != list(geo.block_name_list):
+                    k = next((i for i, (a, b) in enumerate(zip(geo.block_name_list, back.block_name_list)) if a != b), min(len(geo.block_name_list), len(back.block_name_list)))
+                    ctx.violation('names-change-in-file-round-trip', 'block names written %r..., read back %r... (%d vs %d names)' % (
+                        geo.block_name_list[k:k + 3], back.block_name_list[k:k + 3], len(geo.block_name_list), len(back.block_name_list)), c)
+                else:
+                    check_geometry_names(ctx, back, c, prefix='reread:')
 
 
 def check_geometry_names(ctx, geo, c, prefix=''):
